@@ -5,6 +5,7 @@ import (
 	"go/token"
 	"go/types"
 	"sort"
+	"strconv"
 	"strings"
 
 	"golang.org/x/tools/go/ssa"
@@ -446,6 +447,20 @@ func pathSensitiveIndexProof(p *Prog, in ssa.Instruction) (bool, string) {
 				facts := ";" + e.Ev.KV["facts"] + ";"
 				lower := strings.Contains(facts, ";("+idx+" < 0)=false;")
 				upper := strings.Contains(facts, ";("+idx+" < len("+base+"))=true;")
+				if k, err := strconv.ParseInt(idx, 10, 64); err == nil {
+					// a constant position (the k-th argument read through a cursor): the path has compared the length
+					lower = k >= 0
+					for _, f := range strings.Split(e.Ev.KV["facts"], ";") {
+						var n int64
+						switch {
+						case scan(f, "(len("+base+") == %d)=true", &n) && n > k,
+							scan(f, "(len("+base+") < %d)=false", &n) && n > k,
+							scan(f, "(%d < len("+base+"))=true", &n) && n >= k,
+							scan(f, "(len("+base+") == %d)=false", &n) && n == 0 && k == 0:
+							upper = true
+						}
+					}
+				}
 				if !lower || !upper {
 					return false, fmt.Sprintf("a path reaches %s[%s] without having established 0 <= index < len (facts: %s)", base, idx, e.Ev.KV["facts"])
 				}
@@ -1480,4 +1495,18 @@ func fieldAlwaysMadeMap(p *Prog, typeName, field string) (bool, string) {
 		return false, ""
 	}
 	return true, fmt.Sprintf("%s.%s is set to a fresh map at each of the %d places a %s is created and never to anything else", typeName, field, allocs, typeName)
+}
+
+// scan: does s have exactly the given form with one integer in it?
+func scan(s, format string, n *int64) bool {
+	pre, post, ok := strings.Cut(format, "%d")
+	if !ok || !strings.HasPrefix(s, pre) || !strings.HasSuffix(s, post) || len(s) < len(pre)+len(post) {
+		return false
+	}
+	v, err := strconv.ParseInt(s[len(pre):len(s)-len(post)], 10, 64)
+	if err != nil {
+		return false
+	}
+	*n = v
+	return true
 }
